@@ -1355,9 +1355,10 @@ func (p *scionPacketProcessor) validateEgressID() disposition {
 
 	// egress interface must be a known interface
 	// egress is never the internal interface (already checked)
-	// packet coming from internal interface, must go to an external interface
+	// packet coming from internal interface, must go to an external interface (neither to a
+	// sibling router nor back to the internal network: an egress interface ID of 0 is not valid).
 	// Note that, for now, ingress == 0 is also true for sibling interfaces. That might change.
-	if egressLink == nil || (p.ingressFromLink == 0 && egressLink.Scope() == Sibling) {
+	if egressLink == nil || (p.ingressFromLink == 0 && egressLink.Scope() != External) {
 		errCode := slayers.SCMPCodeUnknownHopFieldEgress
 		if !p.infoField.ConsDir {
 			errCode = slayers.SCMPCodeUnknownHopFieldIngress
